@@ -488,6 +488,22 @@ func runKeyvalue(c *h.Ctx, rounds int) {
 		} else {
 			c.Held("kv.id.distinct")
 		}
+		// ids do not depend on what was evaluated before in the same query: a filter whose
+		// condition applies .keyvalue() and then fails (suppressed) must leave the base object alone
+		ctxPath := `$.** ? (@.type() == "object") ? ((@.keyvalue().value.integer() > 1000000) is unknown).keyvalue()`
+		if byc, okc, _ := observeKV(c, ctxPath, doc); okc {
+			same := len(byc) == len(by)
+			for owner, ids := range by {
+				if fmt.Sprint(keysOf(ids)) != fmt.Sprint(keysOf(byc[owner])) {
+					same = false
+				}
+			}
+			if !same {
+				c.Violate("kv.id.stable", h.F("kind", "depends-on-earlier-evaluation"), "ids differ when a filter that applied .keyvalue() and failed was evaluated earlier in the same query: "+ctxPath, cs)
+			} else {
+				c.Held("kv.id.stable")
+			}
+		}
 		// stable over repeated executions on the same document value, with GC churn in between
 		for i := 0; i < 20; i++ {
 			sink = append(sink, make([]byte, 1<<12))
